@@ -105,7 +105,13 @@ def register3(reg):
                       ('property', f'implies(not is_ok({MEMO_OLD}) and not is_err({MEMO_OLD}), self.ghost_stamped == result.node)'),
                       ('property', f'implies(is_ok({MEMO_OLD}), result == ok_res({MEMO_OLD}) and self._memos.mkeys == old_self._memos.mkeys and self._memos.mvals == old_self._memos.mvals)'),
                       ('property', f'not is_err({MEMO_OLD})')],
-             raises={'ParseException': [('property', SAME), 'memo_ok(self._memos, self.textlen)']},
+             raises={'ParseException': [('property', SAME), 'memo_ok(self._memos, self.textlen)',
+                                        # C04: the failure that is raised is the failure that is remembered (in particular the left-recursion
+                                        # guard planted before the body ran never stays behind as the rule's outcome)
+                                        ('property', f'implies(not is_ok({MEMO_OLD}) and not is_err({MEMO_OLD}) and key.ruleinfo.is_memo and '
+                                                     'not key.ruleinfo.no_memo and self._active_config.memoization, '
+                                                     'self._memos.mkeys[key] and is_err(self._memos.mvals[key]) and '
+                                                     'err_id(self._memos.mvals[key]) == exc_id(exc))')]},
              propagates=[GROW])
 
 
